@@ -1519,6 +1519,103 @@ pub fn var_composite(
     Ok((new_glyf, new_gvar))
 }
 
+/// See [`Surgery::InstallFracLiga`].
+pub fn build_frac_liga(f: u16, i: u16, slash: u16, digits: &[u16], variant: u64) -> Vec<u8> {
+    let p16 = |v: &mut Vec<u8>, x: u16| v.extend_from_slice(&x.to_be_bytes());
+    let mut t = Vec::new();
+    p16(&mut t, 1);
+    p16(&mut t, 0);
+    p16(&mut t, 10);
+    let script_list_len = 2 + 2 * 6 + 2 * (4 + 6 + 2 * 4);
+    p16(&mut t, (10 + script_list_len) as u16);
+    let feature_list_len = 2 + 4 * 6 + 4 * 6;
+    p16(&mut t, (10 + script_list_len + feature_list_len) as u16);
+    p16(&mut t, 2);
+    t.extend_from_slice(b"DFLT");
+    p16(&mut t, 14);
+    t.extend_from_slice(b"latn");
+    p16(&mut t, 14 + 18);
+    for _ in 0..2 {
+        p16(&mut t, 4);
+        p16(&mut t, 0);
+        p16(&mut t, 0);
+        p16(&mut t, 0xFFFF);
+        p16(&mut t, 4);
+        for k in 0..4 {
+            p16(&mut t, k);
+        }
+    }
+    // FeatureList: dnom, frac, liga, numr
+    p16(&mut t, 4);
+    let lookups_of: [(&[u8; 4], u16); 4] = [(b"dnom", 2), (b"frac", 1), (b"liga", 0), (b"numr", 2)];
+    for (k, (tag, _)) in lookups_of.iter().enumerate() {
+        t.extend_from_slice(*tag);
+        p16(&mut t, (2 + 4 * 6 + 6 * k) as u16);
+    }
+    for (_, l) in lookups_of.iter() {
+        p16(&mut t, 0);
+        p16(&mut t, 1);
+        p16(&mut t, *l);
+    }
+    // LookupList
+    let ll = t.len();
+    p16(&mut t, 3);
+    for _ in 0..3 {
+        p16(&mut t, 0);
+    }
+    let mut start = |t: &mut Vec<u8>, k: usize, ty: u16| {
+        let at = t.len();
+        let v = ((at - ll) as u16).to_be_bytes();
+        t[ll + 2 + 2 * k..ll + 4 + 2 * k].copy_from_slice(&v);
+        p16(t, ty);
+        p16(t, 0);
+        p16(t, 1);
+        p16(t, 8);
+    };
+    // lookup 0: LigatureSubst format 1 on f: (f f i) -> f, (f i) -> f [or -> i, by variant]
+    start(&mut t, 0, 4);
+    let lig = if variant % 2 == 0 { f } else { i };
+    p16(&mut t, 1);
+    p16(&mut t, 8 + 6 + 8 + 6); // coverage after the ligature set
+    p16(&mut t, 1);
+    p16(&mut t, 8); // ligature set offset
+    p16(&mut t, 2); // ligatureCount
+    p16(&mut t, 6);
+    p16(&mut t, 6 + 8);
+    p16(&mut t, lig);
+    p16(&mut t, 3);
+    p16(&mut t, f);
+    p16(&mut t, i);
+    p16(&mut t, lig);
+    p16(&mut t, 2);
+    p16(&mut t, i);
+    p16(&mut t, 1);
+    p16(&mut t, 1);
+    p16(&mut t, f);
+    // lookup 1: SingleSubst delta 0 on the slash
+    start(&mut t, 1, 1);
+    p16(&mut t, 1);
+    p16(&mut t, 6);
+    p16(&mut t, 0);
+    p16(&mut t, 1);
+    p16(&mut t, 1);
+    p16(&mut t, slash);
+    // lookup 2: SingleSubst delta 0 on the digits
+    let mut ds: Vec<u16> = digits.to_vec();
+    ds.sort_unstable();
+    ds.dedup();
+    start(&mut t, 2, 1);
+    p16(&mut t, 1);
+    p16(&mut t, 6);
+    p16(&mut t, 0);
+    p16(&mut t, 1);
+    p16(&mut t, ds.len() as u16);
+    for g in ds {
+        p16(&mut t, g);
+    }
+    t
+}
+
 fn num_glyphs(disk: &Disk) -> Result<u16, String> {
     disk.tables
         .get(&tag_from_str("maxp"))
@@ -1729,6 +1826,17 @@ pub fn apply(disk: &mut Disk, s: &Surgery) -> Result<(), String> {
             let (head, loca, glyf, gvar) = (get("head")?, get("loca")?, get("glyf")?, get("gvar")?);
             let nv = var_simple(&head, &loca, &glyf, &gvar, *glyph, *amp, *variant)?;
             disk.tables.insert(tag_from_str("gvar"), Rc::new(nv));
+            Ok(())
+        }
+        Surgery::InstallFracLiga { glyphs, variant } => {
+            let n = num_glyphs(disk)?;
+            if glyphs.len() != 13 || glyphs.iter().any(|g| *g == 0 || *g >= n) {
+                return Err("surgery: frac/liga needs f, i, slash and ten digits".into());
+            }
+            disk.tables.insert(
+                tag_from_str("GSUB"),
+                Rc::new(build_frac_liga(glyphs[0], glyphs[1], glyphs[2], &glyphs[3..], *variant)),
+            );
             Ok(())
         }
         Surgery::PostFormat { v25, variant } => {
